@@ -12,7 +12,7 @@ ASSUMPTIONS = [
 
 
 def bounds(tier):
-    return {'N': 3, 'sources_k': '<=2', 'carried': '<=2', 'id_length': 1, 'id_alphabet': 'U+0020..U+007E',
+    return {'N': 3 if tier == 'quick' else 4, 'sources_k': '<=2' if tier == 'quick' else '<=3', 'carried': '<=2', 'id_length': 1, 'id_alphabet': 'U+0020..U+007E',
             'untimed_patterns': ['[0]', '[1]', '[0,2]', '[0,1,2]'], 'blank_id_element': 'first story / first item'}
 
 
